@@ -420,4 +420,30 @@ example :
     (processQ 1000 st [(r1, 1), (r2, 1), (r3, 1)]).1.commit = 5 := by
   refine ⟨by decide, ⟨by decide, Or.inr (by decide)⟩, by decide⟩
 
+/-! ## content of the merged request (continuation session, DESIGN.md 12.10) -/
+/-- the merged request carries every queued entry exactly once, in queue order: merging neither drops, duplicates
+    nor reorders entries -/
+theorem mergeAll_ents (acc : Req) (rest : List (Req × Nat)) :
+    (mergeAll acc rest).ents = acc.ents ++ (rest.map (·.1.ents)).flatten := by
+  induction rest generalizing acc with
+  | nil => simp [mergeAll]
+  | cons p rest ih =>
+    obtain ⟨r, k⟩ := p
+    simp [mergeAll, ih, mergeReq_ents, List.append_assoc]
+
+/-- the merged commit index is at least every queued request's commit index and is one of them (or the front's) -/
+theorem mergeAll_commit_ge (acc : Req) (rest : List (Req × Nat)) :
+    acc.commit ≤ (mergeAll acc rest).commit ∧ ∀ p ∈ rest, p.1.commit ≤ (mergeAll acc rest).commit := by
+  induction rest generalizing acc with
+  | nil => simp [mergeAll]
+  | cons p rest ih =>
+    obtain ⟨r, k⟩ := p
+    obtain ⟨h1, h2⟩ := ih (mergeReq acc r)
+    rw [mergeReq_commit] at h1
+    refine ⟨by simp only [mergeAll]; omega, ?_⟩
+    intro q hq
+    rcases List.mem_cons.mp hq with h | h
+    · subst h; simp only [mergeAll]; omega
+    · exact h2 q h
+
 end DEngine.C36
